@@ -1,7 +1,9 @@
 """C17 - USLP primary headers and transfer frames per CCSDS 732.1-B-2 §4.1, round trip, mismatch errors."""
 from .common import *  # noqa: F403
-from spacepackets.uslp.header import PrimaryHeader, TruncatedPrimaryHeader, determine_header_type, HeaderType
-from spacepackets.uslp.frame import (TransferFrame, TransferFrameDataField, FrameType, FixedFrameProperties, VarFrameProperties)
+from spacepackets.uslp.header import (PrimaryHeader, TruncatedPrimaryHeader, determine_header_type, HeaderType, SourceOrDestField,
+                                      BypassSequenceControlFlag, ProtocolCommandFlag)
+from spacepackets.uslp.frame import (TransferFrame, TransferFrameDataField, FrameType, FixedFrameProperties, VarFrameProperties,
+                                     TfdzConstructionRules, UslpProtocolIdentifier)
 import spacepackets.uslp.defs as ud
 
 PROPERTY = "C17"
@@ -18,13 +20,19 @@ USLP_ERRORS = tuple(v for v in vars(ud).values() if isinstance(v, type) and issu
 
 
 def sym_hdr_vals(ctx, vcf):
+    _CTX[0] = ctx
     return dict(scid=ctx.int("scid", 0, 65535), sd=ctx.flag("srcdest"), vcid=ctx.int("vcid", 0, 63), map=ctx.int("map", 0, 15),
                 flen=ctx.int("flen", 0, 65535), byp=ctx.flag("byp"), pcc=ctx.flag("pcc"), ocf=ctx.flag("ocfflag"),
                 vcfc=(ctx.int("vcfc", 0, (1 << (8 * vcf)) - 1) if vcf else None), vcf=vcf)
 
 
+_CTX = [None]
+
+
 def mk_hdr(h, ocf=None, flen=None):
-    return PrimaryHeader(h["scid"], h["sd"], h["vcid"], h["map"], h["flen"] if flen is None else flen, h["byp"], h["pcc"],
+    c = _CTX[0]
+    return PrimaryHeader(h["scid"], en(c, SourceOrDestField, h["sd"]), h["vcid"], h["map"], h["flen"] if flen is None else flen,
+                         en(c, BypassSequenceControlFlag, h["byp"]), en(c, ProtocolCommandFlag, h["pcc"]),
                          (h["ocf"] != 0) if ocf is None else ocf, h["vcf"], h["vcfc"])
 
 
@@ -146,7 +154,7 @@ def build_frame(ctx, rule, kind, iz, fecf, ocf, vcf, n):
     izb = ctx.octets("iz", iz) if iz else None
     ocfb = ctx.octets("ocf", 4) if ocf else None
     fb = ctx.octets("fecf", fecf) if fecf else None
-    tfdf = TransferFrameDataField(rule, upid, tfdz, ptr)
+    tfdf = TransferFrameDataField(TfdzConstructionRules(rule), en(ctx, UslpProtocolIdentifier, upid), tfdz, ptr)
     if kind == "truncated":
         hdr = TruncatedPrimaryHeader(h["scid"], h["sd"], h["vcid"], h["map"])
         href = ref_common(h, 1)
